@@ -3,15 +3,23 @@ import AioslskVerif.Model.Sched
 Line protocol for K_C05 (one op per line, same `step` the theorems are about).
 
   reset <slots>
-  addUpload <u> | addDownload <u> | cycle | started <k> | finish <k> | failX <k> | backToQueue <k>
+  addUpload <u> | addDownload <u> | cycle | record <k> | started <k> | finish <k> | failX <k> | backToQueue <k>
   requeue <k> | apiQueue <k> | abort <k> | setSlots <n> | friend <u> <0|1>
+  breakX <k>                                       the transfer breaks (UPLOADING → FAILED), the task goes on to tell the peer
+  noticeEnd <k> <delivered 0|1>                    that attempt ends
   report <u> <OFFLINE|AWAY|ONLINE> <priv 0|1>      server: GetUserStatus.Response
   reply <u> <NONE|OFFLINE|AWAY|ONLINE>             server: AddUser.Response (NONE = no such user)
   privList <u,u,...|->                             server: PrivilegedUsers.Response
 
-Answer: `<ok|refused> p=<cycle pending 0|1> slots=<n> sel=<ids started by this cycle, priority order|-> q=<ids of
-_get_queued_transfers()[1] after the op> seen=<for a cycle: u:STATUS/friend/priv the scheduler read for every user
-with an unfinished transfer|-> known=<u:STATUS/priv of every user object the user manager holds after the op> | <id>:<STATE> ...`
+`cycle` is the decision (tasks are created for the selected uploads, which stay QUEUED and are shown as `QUEUED*`),
+`record <k>` the first step of the task created for upload k (QUEUED* → INITIALIZING).  `*` marks every QUEUED upload
+with a running task (chosen, or an earlier task lingers), `~` a FAILED upload whose task lingers.
+
+Answer: `<ok|refused|untimely> p=<cycle pending 0|1> slots=<n> sel=<ids of the uploads this cycle created a task for,
+priority order|-> q=<ids of _get_queued_transfers()[1] after the op> seen=<for a cycle: u:STATUS/friend/priv the scheduler
+read for every user with an unfinished transfer|-> known=<u:STATUS/priv of every user object the user manager holds after
+the op> | <id>:<STATE>[*] ...`.  `untimely`: the cycle was served while an upload was between decision and record (the
+step is performed as the code performs it; the schedule theorems do not cover what follows: `Timely`).
 -/
 open AioslskVerif.Sched
 
@@ -58,7 +66,9 @@ def knownStr (s : Sched) : String :=
   dash ((List.range maxUsers).filterMap (fun u => (s.store u).map (fun k => s!"{u}:{k.status.name}/{b01 k.privileged}")))
 
 def render (s : Sched) (res : String) (sel : List Xfer) (seen : String) : String :=
-  let ents := " ".intercalate (s.xs.map (fun x => s!"{x.id}:{stName x.st}"))
+  let mark := fun (x : Xfer) =>
+    if x.st == .queued && (x.inflight || x.lingering) then "*" else if x.lingering then "~" else ""
+  let ents := " ".intercalate (s.xs.map (fun x => s!"{x.id}:{stName x.st}{mark x}"))
   s!"{res} p={if s.cyclePending then 1 else 0} slots={s.slots} sel={ids sel} q={ids s.eligible} seen={seen} known={knownStr s} | {ents}"
 
 def parseBool : String → Option Bool
@@ -76,6 +86,12 @@ def parseOp : List String → Option Op
   | ["addUpload", u] => u.toNat?.map .addUpload
   | ["addDownload", u] => u.toNat?.map .addDownload
   | ["cycle"] => some .cycle
+  | ["record", k] => k.toNat?.map .record
+  | ["breakX", k] => k.toNat?.map .breakX
+  | ["noticeEnd", k, d] => do
+    let k ← k.toNat?
+    let d ← parseBool d
+    pure (.noticeEnd k d)
   | ["started", k] => k.toNat?.map .started
   | ["finish", k] => k.toNat?.map .finish
   | ["failX", k] => k.toNat?.map .failX
@@ -120,10 +136,10 @@ def handle (s : Sched) (line : String) : Sched × String :=
       let ok := s.accepts op
       -- the decision of a cycle is taken after the tracking half: `s.track`
       let (sel, seen) := match op with
-        | .cycle => if ok then (s.track.select, seenStr s.track) else ([], "-")
+        | .cycle => if ok then (s.track.started, seenStr s.track) else ([], "-")
         | _ => ([], "-")
       let s' := retabulate (step s op)
-      (s', render s' (if ok then "ok" else "refused") sel seen)
+      (s', render s' (if !ok then "refused" else if timelyOp s op then "ok" else "untimely") sel seen)
 
 partial def loop (h : IO.FS.Stream) (s : Sched) : IO Unit := do
   let line ← h.getLine
